@@ -190,13 +190,34 @@ type pendingAssert struct {
 	c  *sym.Term
 }
 
-// checkAssert decides one assertion under the current path condition.
+// checkAssert decides one assertion under the current path condition. The model of a
+// violation is taken from the very query that answered sat.
 func (in *Interp) checkAssert(id string, c *sym.Term) {
 	neg := in.F.Not(c)
-	r := in.S.CheckWith(neg)
+	in.S.Push()
+	in.S.Assert(neg)
+	r := in.S.Check()
+	var m map[string]*big.Int
+	if r == sym.Sat {
+		m = in.S.Model(in.F.Vars)
+	}
+	in.S.Pop()
 	in.Res.Queries++
 	if r == sym.Unknown {
-		r = in.fallbackCheck(neg)
+		// once more with three times the budget (a loaded machine), then the other solvers
+		in.S.SetTimeout(3 * in.Ex.TimeoutMs)
+		in.S.Push()
+		in.S.Assert(neg)
+		r = in.S.Check()
+		if r == sym.Sat {
+			m = in.S.Model(in.F.Vars)
+		}
+		in.S.Pop()
+		in.S.SetTimeout(in.Ex.TimeoutMs)
+		in.Res.Queries++
+	}
+	if r == sym.Unknown {
+		r, m = in.fallbackCheck(neg)
 	}
 	switch r {
 	case sym.Unsat:
@@ -205,7 +226,7 @@ func (in *Interp) checkAssert(id string, c *sym.Term) {
 		in.Res.Unknowns++
 		in.fail("unknown", "solver unknown on assertion "+id)
 	}
-	in.reportViolation(id, "", neg)
+	in.recordViolation(id, "", m)
 }
 
 // flushAsserts decides all pending assertions; must run before the path condition changes.
@@ -235,7 +256,7 @@ func (in *Interp) flushAsserts() {
 }
 
 // fallbackCheck re-submits the path condition plus extra to the other solvers.
-func (in *Interp) fallbackCheck(extra *sym.Term) sym.Result {
+func (in *Interp) fallbackCheck(extra *sym.Term) (sym.Result, map[string]*big.Int) {
 	for _, name := range []string{"cvc5", "z3"} {
 		if name == in.Ex.SolverName {
 			continue
@@ -249,12 +270,16 @@ func (in *Interp) fallbackCheck(extra *sym.Term) sym.Result {
 		}
 		s.Assert(extra)
 		r := s.Check()
+		var m map[string]*big.Int
+		if r == sym.Sat {
+			m = s.Model(in.F.Vars)
+		}
 		s.Close()
 		in.Res.Queries++
 		in.Res.Fallbacks++
 		if r != sym.Unknown {
-			return r
+			return r, m
 		}
 	}
-	return sym.Unknown
+	return sym.Unknown, nil
 }
